@@ -456,6 +456,10 @@ pub fn generate(family: &str, size: usize, seed: u64) -> Vec<String> {
         "w_fa" => writer_cases("fa", &mut rng, if size >= 100000 { 8 } else { 6 }, size, &mut out),
         "w_fq" => writer_cases("fq", &mut rng, 0, size, &mut out),
         "par_x" => par_x(&mut rng, size, &mut out),
+        "fa_cfg" => config_lattice("fa", &mut rng, size, &mut out),
+        "fq_cfg" => config_lattice("fq", &mut rng, size, &mut out),
+        "fa_recode" => recode_groups("fa", &mut rng, size, &mut out),
+        "fq_recode" => recode_groups("fq", &mut rng, size, &mut out),
         "par_y" => par_y(&mut rng, size, &mut out),
         _ => {
             eprintln!("unknown family {}", family);
@@ -688,5 +692,147 @@ pub fn par_y(rng: &mut Rng, size: usize, out: &mut Vec<String>) {
             "Y {} {} {} {} {} {}",
             fmt, t, q, cap, stop.map(|v| v.to_string()).unwrap_or("-".to_string()), hex_or_dash(&input)
         ));
+    }
+}
+
+// ---------------------------------------------------------------- configuration lattice (C03)
+
+pub const CFG_GROUP: usize = 6;
+
+/// every input under six configurations (capacity x policy x chunking / interrupts)
+pub fn config_lattice(fmt: &str, rng: &mut Rng, n_inputs: usize, out: &mut Vec<String>) {
+    for _ in 0..n_inputs {
+        let input = rand_input(fmt, rng, 30);
+        let ops = next_only_ops(fmt, &input);
+        let len = input.len().max(3);
+        let mut intr_script = vec![];
+        for _ in 0..rng.range(2, 12) {
+            intr_script.push(if rng.chance(1, 2) { ReadEv::Intr } else { ReadEv::Data(rng.range(1, 5)) });
+        }
+        let (rs, rc) = rand_script(rng, true);
+        let cfgs: Vec<(usize, PolDesc, usize, Vec<ReadEv>)> = vec![
+            (3, PolDesc::Std, 1, vec![]),
+            (rng.range(3, 9), PolDesc::Add(1), 2, intr_script),
+            (rng.range(3, len + 2), PolDesc::DoubleUntil(rng.range(1, 30)), 0, vec![]),
+            (64, PolDesc::Std, 0, vec![]),
+            (len + 1 + rng.below(4096), PolDesc::Std, rc, rs),
+            (rng.range(3, len + 2), PolDesc::Table((0..3).map(|_| rng.range(1, 7)).collect()), *rng.pick(&[0usize, 3, 7]), vec![]),
+        ];
+        for (cap, pol, chunk, script) in cfgs {
+            let c = Case { fmt: fmt.to_string(), cap, pol, chunk, script, seek_fails: vec![], input: input.clone(), ops: ops.clone() };
+            out.push(c.show());
+        }
+    }
+}
+
+// ---------------------------------------------------------------- encodings of well-formed files (C11, C12)
+
+pub const RECODE_GROUP: usize = 6;
+
+fn field_bytes(rng: &mut Rng, len: usize, alphabet: &[u8]) -> Vec<u8> {
+    rand_bytes(rng, len, alphabet)
+}
+
+pub fn recode_groups(fmt: &str, rng: &mut Rng, n_files: usize, out: &mut Vec<String>) {
+    for _ in 0..n_files {
+        let nrec = *rng.pick(&[1usize, 1, 2, 3, 4, 6]);
+        // logical content, fields free of CR / LF
+        let mut fa: Vec<(Vec<u8>, Vec<Vec<u8>>)> = vec![];
+        let mut fq: Vec<(Vec<u8>, Vec<u8>, Vec<u8>, bool)> = vec![];
+        for _ in 0..nrec {
+            let mut h = rand_head(rng);
+            h.retain(|b| *b != b'\r');
+            if fmt == "fa" {
+                let nl = *rng.pick(&[0usize, 1, 1, 2, 3, 5]);
+                let lines = (0..nl)
+                    .map(|_| {
+                        let l = *rng.pick(&[1usize, 2, 3, 5, 9, 20]);
+                        let mut x = field_bytes(rng, l, b"ACGTNacgt@+;. -");
+                        if x[0] == b'>' {
+                            x[0] = b'A';
+                        }
+                        x
+                    })
+                    .collect();
+                fa.push((h, lines));
+            } else {
+                let l = *rng.pick(&[0usize, 1, 2, 4, 9, 20]);
+                fq.push((h, field_bytes(rng, l, b"ACGTN"), field_bytes(rng, l, b"IJ#!5@+>~ "), rng.chance(1, 4)));
+            }
+        }
+        for variant in 0..RECODE_GROUP {
+            // 0 LF+term, 1 LF-noterm, 2 CRLF+term, 3 CRLF-noterm, 4/5 format specific
+            let mut f: Vec<u8> = vec![];
+            let mut vr = Rng::new(rng.next());
+            let mut term = |f: &mut Vec<u8>, vr: &mut Rng| match variant {
+                0 | 1 => f.push(b'\n'),
+                2 | 3 => f.extend_from_slice(b"\r\n"),
+                4 if fmt == "fq" => f.push(b'\n'),
+                5 if fmt == "fq" => f.extend_from_slice(b"\r\n"),
+                _ => {
+                    if vr.chance(1, 2) {
+                        f.push(b'\n')
+                    } else {
+                        f.extend_from_slice(b"\r\n")
+                    }
+                }
+            };
+            let final_term = match variant {
+                1 | 3 => false,
+                5 if fmt == "fa" => false,
+                _ => true,
+            };
+            if fmt == "fa" {
+                let n = fa.len();
+                for (i, (h, lines)) in fa.iter().enumerate() {
+                    f.push(b'>');
+                    f.extend(h);
+                    let last_rec = i + 1 == n;
+                    if !(last_rec && lines.is_empty() && !final_term) {
+                        term(&mut f, &mut vr);
+                    }
+                    for (j, l) in lines.iter().enumerate() {
+                        f.extend(l);
+                        if !(last_rec && j + 1 == lines.len() && !final_term) {
+                            term(&mut f, &mut vr);
+                        }
+                    }
+                }
+            } else {
+                let n = fq.len();
+                for (i, (h, s, q, rep)) in fq.iter().enumerate() {
+                    f.push(b'@');
+                    f.extend(h);
+                    term(&mut f, &mut vr);
+                    f.extend(s);
+                    term(&mut f, &mut vr);
+                    f.push(b'+');
+                    if *rep {
+                        f.extend(h);
+                    }
+                    term(&mut f, &mut vr);
+                    f.extend(q);
+                    if !(i + 1 == n && !final_term) {
+                        term(&mut f, &mut vr);
+                    }
+                }
+                if variant >= 4 {
+                    for _ in 0..vr.range(1, 2) {
+                        term(&mut f, &mut vr);
+                    }
+                }
+            }
+            let c = Case {
+                fmt: fmt.to_string(),
+                cap: rand_cap(rng, f.len()),
+                pol: PolDesc::Std,
+                chunk: *rng.pick(&[0usize, 0, 1, 5]),
+                script: vec![],
+                seek_fails: vec![],
+                ops: next_only_ops(fmt, &f),
+                input: f,
+            };
+            out.push(c.show());
+        }
     }
 }
